@@ -26,7 +26,7 @@ CLAUSES = {
     "C03": {"ObsUnitary", "ObsTotal", "ObsRecompute", "ObsSingle", "ObsSingleWithEmpty", "ObsSingleOtherThanKnown",
             "ObsOrderFree", "Returns"},
     "C07": {"ObsCands", "Returns"},
-    "C08": {"ObsBackend", "ObsPartition", "ObsCover", "NoCheaper", "ObsModelOpt", "Returns"},
+    "C08": {"ObsBackend", "ObsBackendsAgree", "ObsPartition", "ObsCover", "NoCheaper", "ObsModelOpt", "Returns"},
     "C11": {"ObsCover", "ObsSlots", "ObsNoForeign", "ObsHasRealUnit", "NoCheaper", "ObsModelOpt", "ObsSoftLE", "Returns"},
 }
 
@@ -406,6 +406,10 @@ def run_property(pid, tier, rep):
                          sample_mult=1 if quick else 3)
         recs = l2_records(pa, insts, both, ["partition", "soft"], rng, violations, limit=150 if quick else None)
         recs += l3_records(pa, rng, 200 if quick else 3000, both, ["partition", "soft"], violations, cands=False, recompute=False)
+        # medium continua (beyond the optimality search): the two back-ends must still agree with each other
+        recs += l3_records(pa, rng, 120 if quick else 1500, both, ["partition", "soft"], violations, cands=False, recompute=False,
+                           search=False, shapes=[(3, 7), (4, 5), (2, 15), (5, 4), (3, 9)], unlabelled=0.0)
+        recs = add_other_backend_cost(recs)
     elif pid == "C11":
         l1_align_mutants(rep)
         insts = l1_align(rep, ["2x2", "3x1", "4x1"] if quick else list(UNIVERSES), emit=True, sample_mult=1 if quick else 4)
@@ -427,6 +431,18 @@ def run_property(pid, tier, rep):
         rep.extra["runs_per_backend_observed"] = {"CBC": n_cbc, "GLPK_MI": n_glpk}
         if n_glpk == 0 or n_cbc == 0:
             raise MachineryError("one of the two back-ends was never exercised")
+
+
+def add_other_backend_cost(recs):
+    """C08: attach to each record the cost the other back-end reported for the same instance and mode."""
+    by = {}
+    for r in recs:
+        by.setdefault((json.dumps(r["sizes"]), json.dumps(r["D"]), r["mode"]), {})[r["wantbackend"]] = r
+    for group in by.values():
+        if len(group) == 2:
+            a, b = group.values()
+            a["othercost"], b["othercost"] = b["tot"], a["tot"]
+    return recs
 
 
 def add_soft_le(recs):
